@@ -74,9 +74,14 @@ def d14():
 def d15():
     d = pytrs.PLSSDesc('less and except the wellbore, T154N-R97W Sec 14: NE/4', config='segment')
     if 'less_except' not in d.w_flags or 'well' not in d.w_flags: return "w_flags %r" % d.w_flags
+def d16():
+    d = pytrs.PLSSDesc('T154N-R97W Sec 14: NE/4 development')
+    if [(t.trs, t.desc) for t in d.tracts] != [('154n97w14', 'NE/4 development')]:
+        return "tracts %r, preprocessed %r" % ([(t.trs, t.desc) for t in d.tracts], d.pp_desc)
 for n, f in [("1 C03 None in parse_chunk", d1), ("2 C11/C13 forced layout ignored", d2), ("3 C11 double fallback tract", d3),
              ("4 C10 ill-typed flags", d4), ("5 C12 unanchored/lowercased TRS", d5), ("6 C13 parse kwargs", d6),
              ("7 C14 re-parse doubles flags", d7), ("8a C18 silent skip", d8a), ("8b C18 from_multiple str", d8b),
              ("8c C18 TRSList setitem", d8c), ("8d C18 group_by_nested list", d8d), ("9 C19 csv ilots/flag_lines", d9),
-             ("14 C01 replace-all in sub_scrubber", d14), ("15 C10 segment: wording outside chunks", d15)]:
+             ("14 C01 replace-all in sub_scrubber", d14), ("15 C10 segment: wording outside chunks", d15),
+             ("16 C04 'pm' inside a word read as P.M.", d16)]:
     t(n, f)
